@@ -1362,3 +1362,9 @@ mutant("opc6a-cond-ignores-array-condition", "C12", CONS, """    if isinstance(c
 mutant("opc6a-cond-ignores-array-else-branch", "C12", CONS, """    elif isinstance(f, (IntArray1D, IntArray2D)):
         shape = f.shape
 """, "", "OPC-6A")
+mutant("vid6-int-var-bounds-swapped", "C01", SOLVER, "        v = IntVar(len(self.variables), lo, hi)", "        v = IntVar(len(self.variables), hi, lo)", "VID-6")
+mutant("vid6-int-array-one-variable-short", "C01", SOLVER, "        vars = [self.int_var(lo, hi) for _ in range(size)]", "        vars = [self.int_var(lo, hi) for _ in range(size - 1)]", "VID-6")
+mutant("vid6-bool-array-2d-shape-transposed", "C01", SOLVER, "            return BoolArray2D(vars, cast(Tuple[int, int], shape))", "            return BoolArray2D(vars, cast(Tuple[int, int], shape[::-1]))", "VID-6")
+variant("vid6-size-by-math-prod", "C01", SOLVER, ["        size = functools.reduce(lambda x, y: x * y, shape, 1)\n        vars = [self.bool_var() for _ in range(size)]"],
+        ["        size = 1\n        for extent in shape:\n            size *= extent\n        vars = [self.bool_var() for _ in range(size)]"], "the size computed by a loop")
+mutant("alg9-single-loop-arguments-swapped", "C06", "cspuz/grid_frame.py", "        return graph.active_edges_single_cycle(self.solver, self)", "        return graph.active_edges_single_cycle(self, self.solver)", "ALG-9")
